@@ -18,6 +18,7 @@ MC_Scenarios == {"ok"}
 MC_MaxExtraH == 0
 MC_RandChoices == {1}
 MC_Msg == <<104,105>>
+MC_Sweep == FALSE
 MC_EMIT == TRUE
 
 ====
